@@ -760,6 +760,9 @@ pub fn run(seed: u64, tier: &str, ev: &mut Evidence) -> Vec<Violation> {
         let depth = if j % 3 == 0 { 1 + rng.usize_below(30) } else { 1 + rng.usize_below(300) };
         specs.push((format!("nest:{}:{}", j % 6, depth), ProgSpec::Source(nesting_template(j, depth))));
     }
+    for (name, src) in super::c11::limit_templates() {
+        specs.push((format!("limit:{}", name), ProgSpec::Source(src)));
+    }
     // one pinned instance of the recorded finding (AST nesting beyond the deserializers' limit), so that its
     // KNOWN-FINDING line is printed exactly while it exists, whatever the seed
     specs.push(("pinned:blocks-nested-200".into(), ProgSpec::Source(nesting_template(0, 200))));
